@@ -91,6 +91,16 @@ pub fn nesting_families(rng: &mut Rng, deep: usize) -> Vec<(String, Vec<u8>)> {
             v.push((format!("depth-{} {:02x} around definite-of-indefinite", depth, open), b));
         }
     }
+    // far beyond any plausible internal cap (2^16): indefinite containers around a definite one
+    // that holds an indefinite one, and a pure chain
+    if deep >= 3000 {
+        for depth in [65_537usize, 70_000] {
+            let mut b = vec![0x9f; depth];
+            b.extend_from_slice(&[0x83, 0x9f, 0x01, 0xff, 0x02, 0x03]);
+            b.extend(std::iter::repeat(0xff).take(depth));
+            v.push((format!("depth-{} 9f around definite-of-indefinite", depth), b));
+        }
+    }
     // alternating definite / indefinite nesting
     for depth in [2usize, 3, 4, 9, 64, deep.min(2000)] {
         for start_indef in [false, true] {
